@@ -428,3 +428,559 @@ Proof.
     destruct (lb_item_ok_parts v H) as [_ [Hf _]].
     apply valid_cont_sp; [exact Hf|now apply lb_item_nonspace].
 Qed.
+
+(** * C. Setters *)
+
+Lemma setter_some f x d s :
+  to_str (rf_to f) x = Ok (Some s) -> valid_value s = true ->
+  setter f x d = Ok (dset d (rf_name f) s).
+Proof. intros Ht Hv. unfold setter. rewrite Ht. cbn [bind]. now apply dset_checked_ok. Qed.
+
+Lemma setter_none f x d :
+  to_str (rf_to f) x = Ok None -> rf_allow_none f = true ->
+  setter f x d = if dcontains d (rf_name f) then ddel d (rf_name f) else Ok d.
+Proof. intros Ht Ha. unfold setter. rewrite Ht. cbn [bind]. now rewrite Ha. Qed.
+
+(** the Header properties against the spec's kinds *)
+Definition to_codec_eqb (a b : to_codec) : bool :=
+  match a, b with
+  | ToNone, ToNone | ToSingleLine, ToSingleLine | ToLineBased, ToLineBased
+  | ToSpaceSep, ToSpaceSep | ToLicense, ToLicense => true
+  | _, _ => false
+  end.
+Lemma to_codec_eqb_eq a b : to_codec_eqb a b = true -> a = b.
+Proof. destruct a, b; (reflexivity || discriminate). Qed.
+
+Definition kind_codec (k : kind) : to_codec :=
+  match k with
+  | KFormat | KLine => ToSingleLine
+  | KLines => ToLineBased
+  | KText => ToNone
+  | KLicense => ToLicense
+  end.
+
+Definition kind_matches (k : kind) (f : rfield) : bool :=
+  to_codec_eqb (rf_to f) (kind_codec k) && valid_name (rf_name f)
+  && negb (keq (rf_name f) FORMAT_SPEC)
+  && match k with
+     | KFormat => str_eqb (rf_name f) FORMAT && negb (rf_allow_none f)
+     | _ => negb (keq (rf_name f) FORMAT) && rf_allow_none f
+     end.
+
+Lemma header_table n k :
+  nth_error header_kinds n = Some k ->
+  exists f, nth_error header_fields n = Some f /\ kind_matches k f = true.
+Proof.
+  do 10 (destruct n as [|n]; [cbn; intros [= <-]; eexists; split; reflexivity|]).
+  destruct n; discriminate.
+Qed.
+
+Lemma kind_matches_parts k f :
+  kind_matches k f = true ->
+  rf_to f = kind_codec k /\ valid_name (rf_name f) = true /\ keq (rf_name f) FORMAT_SPEC = false
+  /\ match k with
+     | KFormat => rf_name f = FORMAT /\ rf_allow_none f = false
+     | _ => keq (rf_name f) FORMAT = false /\ rf_allow_none f = true
+     end.
+Proof.
+  unfold kind_matches. intros H. apply andb_true_iff in H. destruct H as [H H4].
+  apply andb_true_iff in H. destruct H as [H H3]. apply andb_true_iff in H. destruct H as [H1 H2].
+  apply to_codec_eqb_eq in H1. apply negb_true_iff in H3. repeat split; try assumption.
+  destruct k; apply andb_true_iff in H4; destruct H4 as [Ha Hb];
+    try (apply negb_true_iff in Ha; split; assumption).
+  apply str_eqb_eq in Ha. apply negb_true_iff in Hb. now split.
+Qed.
+
+(** what a value of the domain becomes on its way into the mapping *)
+Lemma kind_value k v f :
+  rf_to f = kind_codec k -> value_ok k v = true ->
+  exists x, bval_eval (bval_of_sval v) = Ok x
+    /\ ((to_str (rf_to f) x = Ok None /\ k <> KFormat)
+        \/ exists s, to_str (rf_to f) x = Ok (Some s) /\ valid_value s = true /\ trimmed s = true
+                     /\ (k = KFormat -> format_stable s = true)).
+Proof.
+  intros Hc Hv. rewrite Hc.
+  destruct k, v; try discriminate; cbn [value_ok] in Hv; cbn [bval_of_sval bval_eval kind_codec].
+  - (* Format *)
+    apply andb_true_iff in Hv. destruct Hv as [Hl Hs].
+    unfold line_ok in Hl. apply andb_true_iff in Hl. destruct Hl as [Hn Hst].
+    exists (VStr s). split; [reflexivity|]. right. exists s. cbn [to_str].
+    unfold single_line. rewrite (no_linebreak_no_lf s Hn). cbn [bind].
+    destruct (single_line_value s Hn (strip_stripped s Hst)) as [H1 H2]. repeat split; auto.
+  - exists VNone. split; [reflexivity|]. left. split; [reflexivity|discriminate].
+  - unfold line_ok in Hv. apply andb_true_iff in Hv. destruct Hv as [Hn Hst].
+    exists (VStr s). split; [reflexivity|]. right. exists s. cbn [to_str].
+    unfold single_line. rewrite (no_linebreak_no_lf s Hn). cbn [bind].
+    destruct (single_line_value s Hn (strip_stripped s Hst)) as [H1 H2]. repeat split; auto. discriminate.
+  - exists VNone. split; [reflexivity|]. left. split; [reflexivity|discriminate].
+  - exists (VList l). split; [reflexivity|]. cbn [to_str].
+    destruct (line_based_inverse l Hv) as [o [Ho _]]. rewrite Ho. destruct o as [o|].
+    + right. exists o. destruct (lines_value l o Hv Ho) as [H1 H2]. repeat split; auto. discriminate.
+    + left. split; [reflexivity|discriminate].
+  - exists VNone. split; [reflexivity|]. left. split; [reflexivity|discriminate].
+  - unfold freetext_ok in Hv. apply andb_true_iff in Hv. destruct Hv as [H1 H2].
+    exists (VStr s). split; [reflexivity|]. right. exists s. repeat split; auto. discriminate.
+  - exists VNone. split; [reflexivity|]. left. split; [reflexivity|discriminate].
+  - pose proof Hv as Hv'. unfold license_ok, lic_dom in Hv'.
+    apply andb_true_iff in Hv'. destruct Hv' as [Hv' _]. apply andb_true_iff in Hv'. destruct Hv' as [Hv' _].
+    apply andb_true_iff in Hv'. destruct Hv' as [Hn _].
+    exists (VLic (mkLic synopsis (otext text))). split.
+    + unfold mk_license, single_line. rewrite (no_linebreak_no_lf _ Hn). cbn [bind].
+      destruct text; reflexivity.
+    + right. exists (lic_to_str (mkLic synopsis (otext text))).
+      destruct (license_value synopsis text Hv) as [H1 H2]. repeat split; auto. discriminate.
+Qed.
+
+(** * D. The header *)
+Definition hinv (d : para) : Prop :=
+  good_para d = true /\ dcontains d FORMAT_SPEC = false
+  /\ exists fmt, dget d FORMAT = Some fmt /\ format_stable fmt = true.
+
+Lemma hinv_dset d k s :
+  hinv d -> valid_name k = true -> valid_value s = true -> trimmed s = true ->
+  keq k FORMAT_SPEC = false ->
+  (keq k FORMAT = false \/ (k = FORMAT /\ format_stable s = true)) ->
+  hinv (dset d k s).
+Proof.
+  intros (Hg & Hfs & fmt & Hfmt & Hst) Hk Hv Ht Hnfs Hf. repeat split.
+  - now apply good_para_dset.
+  - now rewrite dcontains_dset_other.
+  - destruct Hf as [Hf|[-> Hs]].
+    + exists fmt. now rewrite dget_dset_other.
+    + exists s. now rewrite dget_dset_same.
+Qed.
+
+Lemma hinv_del d k :
+  hinv d -> keq k FORMAT_SPEC = false -> keq k FORMAT = false ->
+  exists d', (if dcontains d k then ddel d k else Ok d) = Ok d' /\ hinv d'.
+Proof.
+  intros Hi Hnfs Hnf. destruct (dcontains d k) eqn:E; [|now exists d].
+  destruct Hi as (Hg & Hfs & fmt & Hfmt & Hst).
+  destruct (ddel_split d k E) as (a & x & b & -> & Hd & Hget).
+  exists (a ++ b). split; [exact Hd|]. repeat split.
+  - now apply good_para_remove in Hg.
+  - rewrite dcontains_dget in *. now rewrite Hget.
+  - exists fmt. now rewrite Hget.
+Qed.
+
+Lemma reserved_split :
+  header_reserved = header_restricted ++ [ascii_lower FORMAT_SPEC].
+Proof. reflexivity. Qed.
+
+Lemma not_reserved k :
+  existsb (str_eqb (ascii_lower k)) header_reserved = false ->
+  existsb (str_eqb (ascii_lower k)) header_restricted = false
+  /\ keq k FORMAT_SPEC = false /\ keq k FORMAT = false.
+Proof.
+  rewrite reserved_split, existsb_app. intros H. apply orb_false_iff in H. destruct H as [H1 H2].
+  cbn [existsb] in H2. rewrite orb_false_r in H2. repeat split; [exact H1|exact H2|].
+  unfold header_restricted, restricted_of, header_fields in H1. cbn [map existsb] in H1.
+  apply orb_false_iff in H1. destruct H1 as [H1 _]. exact H1.
+Qed.
+
+Lemma header_step_ok d o :
+  hinv d -> hop_ok o = true ->
+  exists d', header_step d (hop_of_shop o) = Ok d' /\ hinv d'.
+Proof.
+  intros Hi Ho. destruct o as [i v|k v]; cbn [hop_ok hop_of_shop header_step] in *.
+  - destruct (nth_error header_kinds (N.to_nat i)) as [kd|] eqn:Ek; [|discriminate].
+    destruct (header_table _ _ Ek) as [f [Hf Hm]]. unfold hfield. rewrite Hf. cbn [bind].
+    destruct (kind_matches_parts kd f Hm) as (Hc & Hn & Hnfs & Hk).
+    destruct (kind_value kd v f Hc Ho) as [x [Hx Hcase]]. rewrite Hx. cbn [bind].
+    destruct Hcase as [[Hnone Hkf]|[s (Hs & Hv & Ht & Hfmt)]].
+    + destruct kd; try congruence; destruct Hk as [Hnf Ha];
+        rewrite (setter_none f x d Hnone Ha); now apply hinv_del.
+    + rewrite (setter_some f x d s Hs Hv). eexists. split; [reflexivity|].
+      apply hinv_dset; auto.
+      destruct kd; try (left; tauto). right. destruct Hk as [-> _]. split; [reflexivity|now apply Hfmt].
+  - apply andb_true_iff in Ho. destruct Ho as [Ho Hv]. apply andb_true_iff in Ho. destruct Ho as [Hk Hr].
+    apply negb_true_iff in Hr. destruct (not_reserved k Hr) as (Hr1 & Hnfs & Hnf).
+    unfold freetext_ok in Hv. apply andb_true_iff in Hv. destruct Hv as [Hv Ht].
+    unfold wrapper_setitem. rewrite Hr1. rewrite dset_checked_ok by exact Hv.
+    eexists. split; [reflexivity|]. apply hinv_dset; auto.
+Qed.
+
+Lemma header_run_ok ops : forall d,
+  hinv d -> forallb hop_ok ops = true ->
+  exists d', header_run d (map hop_of_shop ops) = Ok d' /\ hinv d'.
+Proof.
+  induction ops as [|o ops IH]; intros d Hi Ho; [now exists d|].
+  cbn [forallb] in Ho. apply andb_true_iff in Ho. destruct Ho as [Ho Hops].
+  destruct (header_step_ok d o Hi Ho) as [d1 [H1 Hi1]].
+  destruct (IH d1 Hi1 Hops) as [d2 [H2 Hi2]].
+  exists d2. split; [|exact Hi2]. cbn [map header_run]. rewrite H1. cbn [bind]. exact H2.
+Qed.
+
+Lemma header_init_none : header_init None = Ok [(FORMAT, CURRENT_FORMAT)].
+Proof. vm_compute. reflexivity. Qed.
+
+Lemma hinv_initial : hinv [(FORMAT, CURRENT_FORMAT)].
+Proof.
+  split; [vm_compute; reflexivity|]. split; [reflexivity|].
+  exists CURRENT_FORMAT. split; [reflexivity|]. unfold format_stable. now rewrite str_eqb_refl.
+Qed.
+
+Lemma fix_format_repaired fmt : fix_format fmt = repaired fmt.
+Proof. reflexivity. Qed.
+
+(** Header(data) leaves such a paragraph alone *)
+Lemma header_init_some d : hinv d -> header_init (Some d) = Ok d.
+Proof.
+  intros (Hg & Hfs & fmt & Hfmt & Hst). unfold header_init. cbn [bind]. rewrite Hfs. cbn [bind].
+  rewrite Hfmt. destruct (str_eqb fmt CURRENT_FORMAT) eqn:E; [reflexivity|].
+  unfold format_stable in Hst. rewrite E in Hst. cbn [orb] in Hst. apply negb_true_iff in Hst.
+  unfold is_known. rewrite fix_format_repaired. now rewrite Hst.
+Qed.
+
+(** * E. Files and License paragraphs *)
+Definition comment_part (cm : sval) : para :=
+  match cm with SStr c => [(COMMENT, c)] | _ => [] end.
+
+(** the paragraph FilesParagraph.create / LicenseParagraph.create (+ comment) produce *)
+Definition built (p : spara) : cpara :=
+  match p with
+  | PFiles (SList fs) (SStr c) (SLic syn text) cm =>
+      CFiles ([(FILES, join [SP] fs); (COPYRIGHT, c); (LICENSE, lic_to_str (mkLic syn (otext text)))]
+              ++ comment_part cm)
+  | PLicense (SLic syn text) cm =>
+      CLicense ((LICENSE, lic_to_str (mkLic syn (otext text))) :: comment_part cm)
+  | _ => CLicense []
+  end.
+
+Lemma ss_to_str_ok fs : fs <> [] -> ss_dom fs = true -> ss_to_str fs = Ok (Some (join [SP] fs)).
+Proof.
+  intros Hne H. unfold ss_to_str. rewrite mapM_ss_item by exact H.
+  destruct fs; [congruence|reflexivity].
+Qed.
+
+Lemma ss_from_join fs : fs <> [] -> ss_dom fs = true -> ss_from_str (Some (join [SP] fs)) = fs.
+Proof.
+  intros Hne H. destruct (space_separated_inverse fs H) as [o [Ho Hb]].
+  rewrite (ss_to_str_ok fs Hne H) in Ho. injection Ho as <-. exact Hb.
+Qed.
+
+Lemma mk_license_eval syn text :
+  no_linebreak syn = true -> mk_license syn text = Ok (mkLic syn (otext text)).
+Proof.
+  intros H. unfold mk_license, single_line. rewrite (no_linebreak_no_lf _ H). destruct text; reflexivity.
+Qed.
+
+Lemma license_ok_syn syn text : license_ok syn text = true -> no_linebreak syn = true.
+Proof.
+  unfold license_ok, lic_dom. intros H. apply andb_true_iff in H. destruct H as [H _].
+  apply andb_true_iff in H. destruct H as [H _]. apply andb_true_iff in H. tauto.
+Qed.
+
+Lemma license_ok_dom syn text : license_ok syn text = true -> lic_dom syn (otext text) = true.
+Proof. unfold license_ok. intros H. apply andb_true_iff in H. tauto. Qed.
+
+Lemma comment_setter f d cm :
+  rf_name f = COMMENT -> rf_to f = ToNone -> rf_allow_none f = true ->
+  value_ok KText cm = true -> dcontains d COMMENT = false ->
+  exists x, bval_eval (bval_of_sval cm) = Ok x /\ setter f x d = Ok (d ++ comment_part cm).
+Proof.
+  intros Hn Hc Ha Hv Hd. destruct cm; try discriminate; cbn [value_ok] in Hv.
+  - exists VNone. split; [reflexivity|]. rewrite (setter_none f VNone d); [|now rewrite Hc|exact Ha].
+    rewrite Hn, Hd. cbn [comment_part]. now rewrite app_nil_r.
+  - unfold freetext_ok in Hv. apply andb_true_iff in Hv. destruct Hv as [Hv _].
+    exists (VStr s). split; [reflexivity|].
+    rewrite (setter_some f (VStr s) d s); [|now rewrite Hc|exact Hv]. rewrite Hn. f_equal.
+    cbn [comment_part]. clear - Hd. induction d as [|[k v] d IH]; [reflexivity|].
+    cbn [dcontains] in Hd. apply orb_false_iff in Hd. destruct Hd as [H1 H2].
+    cbn [dset app]. rewrite H1. now rewrite IH.
+Qed.
+
+Lemma build_para_ok p : para_ok p = true -> build_para (pspec_of_spara p) = Ok (built p).
+Proof.
+  destruct p as [f c l cm|l cm]; cbn [para_ok].
+  - destruct f as [| |fs|]; try discriminate. destruct c as [|c| |]; try discriminate.
+    destruct l as [| | |syn text]; try discriminate. intros H.
+    apply andb_true_iff in H. destruct H as [H Hcm]. apply andb_true_iff in H. destruct H as [H Hl].
+    apply andb_true_iff in H. destruct H as [H Hc]. apply andb_true_iff in H. destruct H as [Hne Hfs].
+    assert (Hfs_ne : fs <> []) by (destruct fs; [discriminate|discriminate]).
+    cbn [pspec_of_spara bval_of_sval build_para bval_eval].
+    rewrite (mk_license_eval syn text (license_ok_syn _ _ Hl)). cbn [bind].
+    destruct (files_value fs Hfs_ne Hfs) as [Hfv _].
+    destruct (license_value syn text Hl) as [Hlv _].
+    unfold freetext_ok in Hc. apply andb_true_iff in Hc. destruct Hc as [Hcv _].
+    unfold files_create.
+    rewrite (setter_some f_files (VList fs) [] (join [SP] fs)); [|now apply ss_to_str_ok|exact Hfv].
+    cbn [bind].
+    rewrite (setter_some f_copyright (VStr c) _ c); [|reflexivity|exact Hcv]. cbn [bind].
+    rewrite (setter_some f_license (VLic (mkLic syn (otext text))) _ (lic_to_str (mkLic syn (otext text))));
+      [|reflexivity|exact Hlv].
+    cbn [bind].
+    match goal with |- context [setter f_comment _ ?d] =>
+      destruct (comment_setter f_comment d cm eq_refl eq_refl eq_refl Hcm eq_refl) as [x [Hx Hs]] end.
+    rewrite Hx. cbn [bind]. rewrite Hs. reflexivity.
+  - destruct l as [| | |syn text]; try discriminate. intros H.
+    apply andb_true_iff in H. destruct H as [Hl Hcm].
+    cbn [pspec_of_spara bval_of_sval build_para bval_eval].
+    rewrite (mk_license_eval syn text (license_ok_syn _ _ Hl)). cbn [bind].
+    destruct (license_value syn text Hl) as [Hlv _].
+    unfold license_create.
+    rewrite (setter_some l_license (VLic (mkLic syn (otext text))) [] (lic_to_str (mkLic syn (otext text))));
+      [|reflexivity|exact Hlv].
+    cbn [bind].
+    match goal with |- context [setter l_comment _ ?d] =>
+      destruct (comment_setter l_comment d cm eq_refl eq_refl eq_refl Hcm eq_refl) as [x [Hx Hs]] end.
+    rewrite Hx. cbn [bind]. rewrite Hs. reflexivity.
+Qed.
+
+Lemma comment_part_good cm : value_ok KText cm = true -> forallb good_entry (comment_part cm) = true.
+Proof.
+  destruct cm; try reflexivity. cbn [value_ok comment_part forallb]. intros H.
+  unfold freetext_ok in H. apply andb_true_iff in H. destruct H as [Hv Ht].
+  unfold good_entry. cbn [fst snd]. rewrite Hv. unfold trimmed. rewrite Ht. reflexivity.
+Qed.
+
+Lemma built_good p : para_ok p = true -> good_para (cp_data (built p)) = true /\ cp_data (built p) <> [].
+Proof.
+  destruct p as [f c l cm|l cm]; cbn [para_ok].
+  - destruct f as [| |fs|]; try discriminate. destruct c as [|c| |]; try discriminate.
+    destruct l as [| | |syn text]; try discriminate. intros H.
+    apply andb_true_iff in H. destruct H as [H Hcm]. apply andb_true_iff in H. destruct H as [H Hl].
+    apply andb_true_iff in H. destruct H as [H Hc]. apply andb_true_iff in H. destruct H as [Hne Hfs].
+    assert (Hfs_ne : fs <> []) by (destruct fs; [discriminate|discriminate]).
+    destruct (files_value fs Hfs_ne Hfs) as [Hfv Hft].
+    destruct (license_value syn text Hl) as [Hlv Hlt].
+    unfold freetext_ok in Hc. apply andb_true_iff in Hc. destruct Hc as [Hcv Hct].
+    cbn [built cp_data]. split; [|discriminate].
+    unfold good_para. rewrite forallb_app. rewrite (comment_part_good cm Hcm), andb_true_r.
+    apply andb_true_iff. split.
+    + cbn [forallb]. unfold good_entry. cbn [fst snd]. rewrite Hfv, Hft, Hcv, Hlv, Hlt.
+      unfold trimmed. rewrite Hct. reflexivity.
+    + destruct cm; reflexivity.
+  - destruct l as [| | |syn text]; try discriminate. intros H.
+    apply andb_true_iff in H. destruct H as [Hl Hcm].
+    destruct (license_value syn text Hl) as [Hlv Hlt].
+    cbn [built cp_data]. split; [|discriminate].
+    unfold good_para. cbn [forallb]. rewrite (comment_part_good cm Hcm), andb_true_r.
+    apply andb_true_iff. split.
+    + unfold good_entry. cbn [fst snd]. now rewrite Hlv, Hlt.
+    + destruct cm; reflexivity.
+Qed.
+
+Lemma built_is_files p : para_ok p = true -> is_files (built p) = is_pfiles p.
+Proof.
+  destruct p as [f c l cm|l cm]; cbn [para_ok].
+  - destruct f as [| |fs|]; try discriminate. destruct c as [|c| |]; try discriminate.
+    destruct l as [| | |syn text]; try discriminate. reflexivity.
+  - destruct l as [| | |syn text]; try discriminate. reflexivity.
+Qed.
+
+(** what the properties of such a paragraph read as *)
+Lemma getter_plain f d : rf_from f = FromNone ->
+  getter f d = Ok (match dget d (rf_name f) with Some v => VStr v | None => VNone end).
+Proof. intros H. unfold getter. now rewrite H. Qed.
+
+Lemma getter_license f d l : rf_from f = FromLicense ->
+  dget d (rf_name f) = Some (lic_to_str l) ->
+  lic_from_str (Some (lic_to_str l)) = Ok (Some l) ->
+  getter f d = Ok (VLic l).
+Proof. intros H Hd Hl. unfold getter. rewrite H, Hd, Hl. reflexivity. Qed.
+
+Lemma getter_files d fs : fs <> [] -> ss_dom fs = true ->
+  dget d FILES = Some (join [SP] fs) -> getter f_files d = Ok (VList fs).
+Proof.
+  intros Hne H Hd. unfold getter. cbn [rf_from f_files rf_name]. rewrite Hd. now rewrite ss_from_join.
+Qed.
+
+Lemma built_view p : para_ok p = true -> para_view (built p) = expected_view p.
+Proof.
+  destruct p as [f c l cm|l cm]; cbn [para_ok].
+  - destruct f as [| |fs|]; try discriminate. destruct c as [|c| |]; try discriminate.
+    destruct l as [| | |syn text]; try discriminate. intros H.
+    apply andb_true_iff in H. destruct H as [H Hcm]. apply andb_true_iff in H. destruct H as [H Hl].
+    apply andb_true_iff in H. destruct H as [H Hc]. apply andb_true_iff in H. destruct H as [Hne Hfs].
+    assert (Hfs_ne : fs <> []) by (destruct fs; [discriminate|discriminate]).
+    destruct (license_inverse syn (otext text) (license_ok_dom _ _ Hl)) as [_ Hli].
+    unfold expected_view, expected_vals. cbn [built para_view norm_val fval_of_sval otext map].
+    unfold view_of, files_fields. cbn [map]. f_equal.
+    destruct cm; try discriminate; cbn [comment_part app fval_of_sval].
+    + rewrite (getter_files _ fs Hfs_ne Hfs) by reflexivity.
+      rewrite (getter_license f_license _ (mkLic syn (otext text)) eq_refl); [|reflexivity|exact Hli].
+      rewrite !getter_plain by reflexivity. reflexivity.
+    + rewrite (getter_files _ fs Hfs_ne Hfs) by reflexivity.
+      rewrite (getter_license f_license _ (mkLic syn (otext text)) eq_refl); [|reflexivity|exact Hli].
+      rewrite !getter_plain by reflexivity. reflexivity.
+  - destruct l as [| | |syn text]; try discriminate. intros H.
+    apply andb_true_iff in H. destruct H as [Hl Hcm].
+    destruct (license_inverse syn (otext text) (license_ok_dom _ _ Hl)) as [_ Hli].
+    unfold expected_view, expected_vals. cbn [built para_view norm_val fval_of_sval otext map].
+    unfold view_of, license_fields. cbn [map]. f_equal.
+    destruct cm; try discriminate; cbn [comment_part app fval_of_sval].
+    + rewrite (getter_license l_license _ (mkLic syn (otext text)) eq_refl); [|reflexivity|exact Hli].
+      rewrite !getter_plain by reflexivity. reflexivity.
+    + rewrite (getter_license l_license _ (mkLic syn (otext text)) eq_refl); [|reflexivity|exact Hli].
+      rewrite !getter_plain by reflexivity. reflexivity.
+Qed.
+
+(** Copyright.__init__ classifies them as what they are, in strict and in lax mode *)
+Lemma classify_built strict qs :
+  forallb para_ok qs = true ->
+  classify_all strict (map cp_data (map built qs)) = Ok (map built qs).
+Proof.
+  induction qs as [|p qs IH]; intros H; [reflexivity|].
+  cbn [forallb] in H. apply andb_true_iff in H. destruct H as [Hp Hqs].
+  specialize (IH Hqs). cbn [map classify_all].
+  destruct p as [f c l cm|l cm]; cbn [para_ok] in Hp.
+  - destruct f as [| |fs|]; try discriminate. destruct c as [|c| |]; try discriminate.
+    destruct l as [| | |syn text]; try discriminate.
+    apply andb_true_iff in Hp. destruct Hp as [Hp Hcm]. apply andb_true_iff in Hp. destruct Hp as [Hp Hl].
+    apply andb_true_iff in Hp. destruct Hp as [Hp Hc]. apply andb_true_iff in Hp. destruct Hp as [Hne Hfs].
+    assert (Hfs_ne : fs <> []) by (destruct fs; [discriminate|discriminate]).
+    cbn [built cp_data].
+    assert (Hinit : forall d', files_para_init
+              ((FILES, join [SP] fs) :: (COPYRIGHT, c) :: (LICENSE, lic_to_str (mkLic syn (otext text))) :: d')
+              strict true = Ok tt).
+    { intros d'. unfold files_para_init. destruct strict; [|reflexivity].
+      change (dcontains _ FILES) with true. cbn [negb].
+      change (dcontains ((FILES, join [SP] fs) :: (COPYRIGHT, c) :: _) COPYRIGHT) with true.
+      change (dcontains ((FILES, join [SP] fs) :: (COPYRIGHT, c) :: (LICENSE, _) :: d') LICENSE) with true.
+      cbn [negb bind]. cbn [dget]. change (key_eqb FILES FILES) with true. cbn iota.
+      rewrite ss_from_join by assumption. destruct fs; [congruence|reflexivity]. }
+    change (dcontains _ FILES) with true. cbn iota. cbn [app]. rewrite Hinit. cbn [bind].
+    rewrite IH. reflexivity.
+  - destruct l as [| | |syn text]; try discriminate.
+    apply andb_true_iff in Hp. destruct Hp as [Hl Hcm].
+    cbn [built cp_data].
+    assert (Hnf : dcontains ((LICENSE, lic_to_str (mkLic syn (otext text))) :: comment_part cm) FILES = false)
+      by (destruct cm; reflexivity).
+    rewrite Hnf. change (dcontains _ LICENSE) with true. cbn iota.
+    unfold license_para_init. rewrite Hnf. change (dcontains _ LICENSE) with true.
+    destruct strict; cbn [negb bind]; rewrite IH; reflexivity.
+Qed.
+
+(** * F. The order of the paragraphs *)
+Lemma add_files_sorted F : forall L p,
+  forallb is_files F = true -> existsb is_files L = false ->
+  add_files (F ++ L) p = F ++ p :: L.
+Proof.
+  induction F as [|x F IH]; intros L p HF HL.
+  - cbn [app]. destruct L as [|y r]; [reflexivity|]. cbn [existsb] in HL.
+    apply orb_false_iff in HL. destruct HL as [Hy Hr]. cbn [add_files]. now rewrite Hr, Hy.
+  - cbn [forallb] in HF. apply andb_true_iff in HF. destruct HF as [Hx HF].
+    cbn [app add_files]. destruct (existsb is_files (F ++ L)) eqn:E.
+    + now rewrite IH.
+    + rewrite Hx. rewrite existsb_app in E. apply orb_false_iff in E. destruct E as [EF _].
+      destruct F as [|y F']; [reflexivity|]. cbn [forallb existsb] in *.
+      apply andb_true_iff in HF. destruct HF as [Hy _]. now rewrite Hy in EF.
+Qed.
+
+Lemma fold_add_para qs : forall F L,
+  forallb is_files F = true -> existsb is_files L = false ->
+  fold_left add_para qs (F ++ L)
+  = (F ++ filter is_files qs) ++ (L ++ filter (fun q => negb (is_files q)) qs).
+Proof.
+  induction qs as [|q qs IH]; intros F L HF HL.
+  - cbn [fold_left filter]. now rewrite !app_nil_r.
+  - cbn [fold_left filter]. destruct q as [d|d]; cbn [add_para is_files negb].
+    + rewrite add_files_sorted by assumption.
+      change (F ++ CFiles d :: L) with (F ++ [CFiles d] ++ L). rewrite app_assoc.
+      rewrite IH; [|rewrite forallb_app, HF; reflexivity|exact HL].
+      now rewrite <- !app_assoc.
+    + rewrite <- app_assoc. rewrite IH; [|exact HF|rewrite existsb_app, HL; reflexivity].
+      now rewrite <- !app_assoc.
+Qed.
+
+Lemma add_all_ok ps : forall acc,
+  forallb para_ok ps = true ->
+  add_all acc (map pspec_of_spara ps) = Ok (fold_left add_para (map built ps) acc).
+Proof.
+  induction ps as [|p ps IH]; intros acc H; [reflexivity|].
+  cbn [forallb] in H. apply andb_true_iff in H. destruct H as [Hp Hps].
+  cbn [map add_all fold_left]. rewrite build_para_ok by exact Hp. cbn [bind]. now apply IH.
+Qed.
+
+Lemma filter_map_built (ps : list spara) :
+  forallb para_ok ps = true ->
+  filter is_files (map built ps) = map built (filter is_pfiles ps)
+  /\ filter (fun q => negb (is_files q)) (map built ps) = map built (filter (fun p => negb (is_pfiles p)) ps).
+Proof.
+  induction ps as [|p ps IH]; intros H; [split; reflexivity|].
+  cbn [forallb] in H. apply andb_true_iff in H. destruct H as [Hp Hps].
+  destruct (IH Hps) as [I1 I2]. cbn [map filter]. rewrite (built_is_files p Hp).
+  destruct (is_pfiles p); cbn [negb map]; rewrite I1, I2; split; reflexivity.
+Qed.
+
+Lemma expected_order_ok ps : forallb para_ok ps = true -> forallb para_ok (expected_order ps) = true.
+Proof.
+  intros H. unfold expected_order. rewrite forallb_app.
+  apply andb_true_iff; split; rewrite forallb_forall in *; intros x Hx; apply filter_In in Hx; apply H; tauto.
+Qed.
+
+(** * G. The round trip *)
+
+(** the text of dumped paragraphs separated by one empty line *)
+Definition paras_text (ds : list para) : str :=
+  match ds with
+  | [] => []
+  | d :: r => Model.dump d ++ concat (map (fun p => LF :: Model.dump p) r)
+  end.
+
+Lemma cdump_paras_text c : cdump c = paras_text (cd_header c :: map cp_data (cd_paras c)).
+Proof. unfold cdump, paras_text. now rewrite map_map. Qed.
+
+Definition nonempty_para (d : para) : bool := negb (is_nil d).
+
+Section Roundtrip.
+  (** C02's paragraph-level round trip, in the form this development needs it
+      (discharged in Copyright/DocRoundtrip.v from the theorems of Props/C02.v) *)
+  Variable reader_ok :
+    forall (form : N) (ds : list para),
+      ds <> [] -> forallb good_para ds = true -> forallb nonempty_para ds = true ->
+      Model.iter_paragraphs Model.CDeb822 true (input_of_text form (paras_text ds)) = Ok ds.
+
+  Theorem copyright_roundtrip_from_reader hops ps form strict :
+    wf_copyright hops ps = true ->
+    exists c1,
+      build_doc (map hop_of_shop hops) (map pspec_of_spara ps) = Ok c1
+      /\ copyright_parse strict (input_of_text form (cdump c1)) = Ok c1
+      /\ map para_view (cd_paras c1) = map expected_view (expected_order ps).
+  Proof.
+    unfold wf_copyright. intros H. apply andb_true_iff in H. destruct H as [Hh Hp].
+    destruct (header_run_ok hops _ hinv_initial Hh) as [h [Hrun Hi]].
+    pose proof (expected_order_ok ps Hp) as Hq.
+    set (qs := expected_order ps) in *.
+    exists (mkDoc h (map built qs)). split; [|split].
+    - unfold build_doc. rewrite header_init_none. cbn [bind]. rewrite Hrun. cbn [bind].
+      rewrite add_all_ok by exact Hp. cbn [bind]. f_equal. f_equal.
+      change (@nil cpara) with (@nil cpara ++ @nil cpara) at 1.
+      rewrite (fold_add_para (map built ps) [] []) by reflexivity. cbn [app].
+      destruct (filter_map_built ps Hp) as [-> ->]. subst qs. unfold expected_order. now rewrite map_app.
+    - unfold copyright_parse. rewrite cdump_paras_text. cbn [cd_header cd_paras].
+      rewrite reader_ok.
+      + cbn [bind]. pose proof (header_init_some h Hi) as Hhd. unfold Model.dict, para in *. rewrite Hhd. cbn [bind].
+        rewrite classify_built by exact Hq. reflexivity.
+      + discriminate.
+      + cbn [forallb]. destruct Hi as (Hg & _). rewrite Hg. cbn [andb].
+        rewrite forallb_forall. intros d Hd. apply in_map_iff in Hd. destruct Hd as [q [<- Hq']].
+        apply in_map_iff in Hq'. destruct Hq' as [p [<- Hin]].
+        rewrite forallb_forall in Hq. now destruct (built_good p (Hq p Hin)).
+      + cbn [forallb]. destruct Hi as (_ & _ & fmt & Hfmt & _).
+        assert (Hne : nonempty_para h = true) by (destruct h; [discriminate|reflexivity]).
+        rewrite Hne. cbn [andb].
+        rewrite forallb_forall. intros d Hd. apply in_map_iff in Hd. destruct Hd as [q [<- Hq']].
+        apply in_map_iff in Hq'. destruct Hq' as [p [<- Hin]].
+        rewrite forallb_forall in Hq. destruct (built_good p (Hq p Hin)) as [_ Hne'].
+        unfold nonempty_para. destruct (cp_data (built p)); [congruence|reflexivity].
+    - cbn [cd_paras]. rewrite map_map. apply map_ext_in. intros p Hin.
+      apply built_view. rewrite forallb_forall in Hq. now apply Hq.
+  Qed.
+
+  (** the same in the terms the correspondence check computes ([run_doc]): the re-read
+      document shows the same values, the second dump is identical, and the Files /
+      License paragraphs read as what was put in *)
+  Corollary run_doc_roundtrip hops ps form strict :
+    wf_copyright hops ps = true ->
+    exists t hv,
+      run_doc (map hop_of_shop hops) (map pspec_of_spara ps) form strict
+      = RDone t (hv :: map expected_view (expected_order ps))
+                (hv :: map expected_view (expected_order ps)) t.
+  Proof.
+    intros H. destruct (copyright_roundtrip_from_reader hops ps form strict H) as (c1 & Hb & Hparse & Hv).
+    exists (cdump c1), (view_of false header_fields (cd_header c1)).
+    unfold run_doc. rewrite Hb, Hparse. unfold doc_view. now rewrite Hv.
+  Qed.
+End Roundtrip.
